@@ -178,9 +178,8 @@ impl AliasParser {
                         }
                         (feature, Mods::Number(v.parse().unwrap_or(0)))
                     },
-                    _ => {
-                        unreachable!();
-                    }
+                    // the lexer reads alpha letters as it does in rules, but aliases have no alphas
+                    _ => return Err(AliasSyntaxError::ExpectedTokenFeature(self.curr_tkn.clone())),
                 }
             },
             _ => unreachable!(),
@@ -462,6 +461,10 @@ impl AliasParser {
         // !EOL
         if !self.expect(AliasTokenKind::Eol) {
             return Err(AliasSyntaxError::ExpectedEndLine(self.curr_tkn.clone()))
+        }
+        // `$` is only meaningful on the left of a romaniser
+        if let Some(bound) = output_terms.iter().find(|t| t.kind == AliasParseElement::SyllBound) {
+            return Err(AliasSyntaxError::BoundInDerom(bound.position))
         }
 
         // Split into individual transformations
